@@ -155,6 +155,11 @@ func (c *Catalog) createTable(stmt *ast.CreateTableStmt) error {
 		}
 	} else {
 		for _, col := range stmt.Cols {
+			for _, prev := range tbl.Columns {
+				if prev.Name == col.Colname {
+					return sqlerr.ColumnExists(stmt.Name.Name, col.Colname)
+				}
+			}
 			tc := &Column{
 				Name:      col.Colname,
 				Type:      *col.TypeName,
